@@ -13,7 +13,7 @@ import ast
 
 from .. import nodewalk, paths, typestate
 from ..model import AnalysisError, Project
-from ..report import Result
+from ..report import Result, ctx_of
 from .common import site, src, status_str
 
 PROP = 'C10'
@@ -33,6 +33,7 @@ def run(p: Project, tier: str) -> Result:
     r.assumptions = ['attribute-held token lists (self.in_edge_events ...) are written only by the process that reads them']
     ws = nodewalk.walks(p)
     for w in ws:
+        r.ctx = ctx_of(w)
         r.paths += w.npaths
         for root, ps in w.roots.items():
             fi = w.root_funcs[root]
